@@ -2,7 +2,7 @@ INIT Init
 NEXT Next
 CONSTANTS
   Names = {"a", "b"}
-  MaxCost = 4
+  MaxCost = 5
   Directed = TRUE
 INVARIANTS RT GenSound Emit
 CHECK_DEADLOCK FALSE
